@@ -16,7 +16,7 @@ Acts ==
     { St(c, "KICK", <<<<"#one">>, v>>) : c \in {A, B, C, D}, v \in {<<"carol">>, <<"bob">>, <<"alice">>, <<"bob", "bob">>, <<"nobody", "carol">>} }
     \cup { St(B, "KICK", <<<<"#one">>, <<"carol">>, <<"get: out">>>>), St(B, "KICK", <<<<"#none">>, <<"carol">>>>),
            St(A, "KICK", <<<<"#one">>, <<"bob", "carol", "alice">>>>) }
-    \cup { St(c, "TOPIC", <<<<"#one">>, <<t>>>>) : c \in {A, B, C, D}, t \in {"new: topic", ""} }
+    \cup { St(c, "TOPIC", <<<<"#one">>, <<t>>>>) : c \in {A, B, C, D}, t \in {"new: topic", "", ":-)"} }
     \cup { St(c, "TOPIC", <<<<"#one">>>>) : c \in {B, D} }
     \cup { St(c, "INVITE", <<<<w>>, <<"#one">>>>) : c \in {A, B, C, D}, w \in {"dave", "carol", "nobody"} }
     \cup { St(D, "JOIN", <<<<"#one">>>>), St(D, "LIST", <<<<"#one">>>>), St(B, "PART", <<<<"#one">>>>), St(C, "PART", <<<<"#one">>>>) }
